@@ -223,11 +223,23 @@ func aolListings(p *Prog, r *Report, m *aolModel, clause string) {
 		if len(pc.Call.Args) >= 3 {
 			mc, _ = pc.Call.Args[2].(*ssa.MakeClosure)
 		}
+		host := o
+		if mc == nil && len(pc.Call.Args) >= 3 {
+			// the callback may be made by a factory of the module: `query.Paginate(store, page, collect(prefix, &out))` with
+			// `func collect(…) func(k, v []byte) error { return func(…) … }` — the factory's parameters are the handler's arguments
+			if c2, ok := pc.Call.Args[2].(*ssa.Call); ok {
+				if g := c2.Call.StaticCallee(); g != nil && InModule(g) && g.Blocks != nil && len(returnsOf(g)) == 1 && len(returnsOf(g)[0].Results) == 1 {
+					if mc2, ok := returnsOf(g)[0].Results[0].(*ssa.MakeClosure); ok {
+						mc, host = mc2, o.subOrigin(c2, g)
+					}
+				}
+			}
+		}
 		if mc == nil {
 			r.Undecided(kp("LIST", hn+"#callback"), "listing callback is a closure literal", site, "third argument of Paginate is not a closure")
 			continue
 		}
-		co := o.ClosureOrigin(mc)
+		co := host.ClosureOrigin(mc)
 		cfn := mc.Fn.(*ssa.Function)
 		dec := findCalls(cfn, "types/compkey.Decode")
 		dec = append(dec, findCalls(cfn, "types/compkey.MustDecode")...)
